@@ -882,6 +882,21 @@ def _resolve_action_conflicts(
                 if is_active_flow(get_flow_state_from_head(state, head))
                 and head.status == FlowHeadStatus.ACTIVE
             ]
+            # The event of every head is created up front: a head whose event cannot be created
+            # (e.g. an argument expression that has become invalid in the meantime) fails alone
+            head_events: Dict[str, Event] = {}
+            for head in list(group):
+                head_element = get_flow_config_from_head(state, head).elements[
+                    head.position
+                ]
+                assert isinstance(head_element, SpecOp)
+                try:
+                    head_events[head.uid] = get_event_from_element(
+                        state, get_flow_state_from_head(state, head), head_element
+                    )
+                except Exception as e:
+                    _fail_flow_of_head_with_colang_error(state, head, e)
+                    group.remove(head)
             if len(group) == 0:
                 continue
             max_length = max(len(head.matching_scores) for head in group)
@@ -901,12 +916,7 @@ def _resolve_action_conflicts(
                 len(ordered_heads),
             )
             picked_head = random.choice(ordered_heads[:equal_heads_index])
-            winning_element = get_flow_config_from_head(state, picked_head).elements[
-                picked_head.position
-            ]
-            assert isinstance(winning_element, SpecOp)
-            flow_state = get_flow_state_from_head(state, picked_head)
-            winning_event = get_event_from_element(state, flow_state, winning_element)
+            winning_event = head_events[picked_head.uid]
             log.info(
                 "Winning action at head: %s scores=%s",
                 picked_head,
@@ -918,14 +928,8 @@ def _resolve_action_conflicts(
             for head in ordered_heads:
                 if head == picked_head:
                     continue
-                competing_element = get_flow_config_from_head(state, head).elements[
-                    head.position
-                ]
-                assert isinstance(competing_element, SpecOp)
                 competing_flow_state = get_flow_state_from_head(state, head)
-                competing_event = get_event_from_element(
-                    state, competing_flow_state, competing_element
-                )
+                competing_event = head_events[head.uid]
                 if _is_same_action_event(state, winning_event, competing_event):
                     if (
                         isinstance(winning_event, ActionEvent)
@@ -2531,23 +2535,30 @@ def _generate_action_event_or_fail_flow(state: State, head: FlowHead) -> bool:
         _generate_action_event_from_actionable_element(state, head)
         return True
     except Exception as e:
-        flow_state = get_flow_state_from_head(state, head)
-        log.warning(
-            "Flow '%s' failed due to Colang runtime exception while creating an event: %s",
-            flow_state.flow_id,
-            e,
-            exc_info=True,
-        )
-        colang_error_event = Event(
-            name="ColangError",
-            arguments={
-                "type": str(type(e).__name__),
-                "error": str(e),
-            },
-        )
-        _push_internal_event(state, colang_error_event)
-        _abort_flow(state, flow_state, head.matching_scores)
+        _fail_flow_of_head_with_colang_error(state, head, e)
         return False
+
+
+def _fail_flow_of_head_with_colang_error(
+    state: State, head: FlowHead, e: Exception
+) -> None:
+    """Fail the flow of a head whose outgoing event could not be created and report the error."""
+    flow_state = get_flow_state_from_head(state, head)
+    log.warning(
+        "Flow '%s' failed due to Colang runtime exception while creating an event: %s",
+        flow_state.flow_id,
+        e,
+        exc_info=True,
+    )
+    colang_error_event = Event(
+        name="ColangError",
+        arguments={
+            "type": str(type(e).__name__),
+            "error": str(e),
+        },
+    )
+    _push_internal_event(state, colang_error_event)
+    _abort_flow(state, flow_state, head.matching_scores)
 
 
 def _generate_action_event_from_actionable_element(
